@@ -38,6 +38,24 @@ pub fn handle(op: &str, a: &[&str]) -> Option<Resp> {
             if fail.is_none() && dump.matches("(ERROR").count() != errs.len() {
                 fail = Some("number of errors != number of ERROR nodes".to_string());
             }
+            // the readers are functions of (text, allow_substvar): the same call gives the same tree
+            // and errors whatever was read before (other setting of the flag, the strict reader,
+            // another text in between) — after seeded change C09-r5m2 (a cache keyed by the text only)
+            if fail.is_none() && s.contains('$') {
+                let key = |x: &(Relations, Vec<String>)| (x.0.verif_dump(), x.1.len());
+                let other = Relations::parse_relaxed(&s, !allow);
+                let again = Relations::parse_relaxed(&s, allow);
+                let _ = Relations::parse_relaxed("zz, y", false);
+                let other2 = Relations::parse_relaxed(&s, !allow);
+                let st1 = Relations::from_str(&s).is_ok();
+                let _ = Relations::parse_relaxed(&s, true);
+                let st2 = Relations::from_str(&s).is_ok();
+                if key(&again) != (dump.clone(), errs.len()) || key(&other) != key(&other2) || st1 != st2 {
+                    fail = Some("the reader's answer for the same (text, allow_substvar) depends on what was read before".to_string());
+                } else if st1 != Relations::parse_relaxed(&s, false).1.is_empty() {
+                    fail = Some("from_str.is_ok() != parse_relaxed(s,false) errors.is_empty() (after reading with substvars allowed)".to_string());
+                }
+            }
             Some(Resp::with(format!("{} {} {} {}", es(&printed), errs.len(), strict, dump), fail))
         }
         ("rel.entry", [t]) => {
